@@ -129,7 +129,13 @@ def check_c06(prog, rep, tier, cfg):
               "original spacing may only be read by max_one_either_side (0-vs-some between literal-like tokens), the length table and emission")
     # the one place where the original newline count influences the result: clamp(1,2) on the first token of a line
     rs = prog.inlined(OLF + "InternalOptimisingLineFormatter::reconstruct_solution", keep=RS_KEEP)      # a per-decision helper is spliced in
-    if rep.check(rs is not None, R, "anchor:reconstruct_solution", "reconstruct_solution not found"):
+    ok = False
+    # two views of the same code: as written (a clamp helper is a call whose results are classified) and with single-use helpers spliced in
+    # (a per-decision helper that contains the clamp); the rule holds if it holds in one of them
+    for rs_view in ([prog.body(OLF + "InternalOptimisingLineFormatter::reconstruct_solution"), rs] if rs is not None else []):
+        if ok or rs_view is None:
+            continue
+        rs = rs_view
         rd = [a for a in prog.field_accesses(FD, "newlines_before", bodies=[rs]) if a[3] == "read"]
         ok = len(rd) == 1
         if ok:
@@ -147,6 +153,8 @@ def check_c06(prog, rep, tier, cfg):
                 ok = within(vs, 1, 2)
             else:
                 ok = False
+    rs = prog.inlined(OLF + "InternalOptimisingLineFormatter::reconstruct_solution", keep=RS_KEEP)
+    if rep.check(rs is not None, R, "anchor:reconstruct_solution", "reconstruct_solution not found"):
         rep.check(ok, R, "newline-count-read-only-as-clamp(1,2)-on-first-token", "reconstruct_solution uses the input's newline count other than as clamp(_, 1, 2) for the first token of a line",
                   instance={"use": "newlines_before.clamp(1, 2) under decision_index == 0"})
     # FormattingData::from reduces whitespace to (newline count, blanks on the last line)
